@@ -53,13 +53,14 @@ def check(run: Run) -> None:
     vs = cls.methods.get("visit_Subscript")
     if vs is None:
         raise AnalysisError("anchor vanished: simplify_chained_calls.visit_Subscript")
+    from ..visitors import projection_handlers
+
+    hmap, _tests = projection_handlers(m, ctx, cls, vs)
+    run.floor("C18.R1", len(hmap), 3, "literal projection handlers reached from visit_Subscript")
     handlers = []
-    for c in calls_in(vs):
-        if isinstance(c.func, ast.Attribute) and isinstance(c.func.value, ast.Name) and c.func.value.id == vs.pos_params[0] and c.func.attr in cls.methods and c.func.attr != "visit" and len(c.args) == 2:
-            h = cls.methods[c.func.attr]
-            if h not in handlers and "First" not in h.name:
-                handlers.append(h)
-    run.floor("C18.R1", len(handlers), 3, "literal projection handlers reached from visit_Subscript")
+    for k in sorted(hmap):
+        if hmap[k][0] not in handlers:
+            handlers.append(hmap[k][0])
     for h in handlers:
         _check_handler(run, ctx, m, cls, h)
 
@@ -124,7 +125,7 @@ def check(run: Run) -> None:
                 nm = n.exc.func if isinstance(n.exc, ast.Call) else n.exc
                 d = ast.unparse(nm)
                 run.check(d == "FuncADLIndexError", "C18.R4", fi, n, "raises FuncADLIndexError", f"the simplifier raises {d}: only the dedicated index error is a permitted failure")
-    run.floor("C18.R4", n_raise, 2, "raise statements in the simplifier")
+    run.floor("C18.R4", n_raise, 1, "raise statements in the simplifier")
 
 
 def _static_kind(fa, fi: FuncInfo, e: ast.AST) -> str:
